@@ -21,7 +21,14 @@
     reorgTo ends with an unconditional store.Flush() (manager.go:500-502).
 
     Whether the size/time threshold of shouldFlush (100 MB / 5 s) fires is an input bit per
-    step: the theorems quantify over it. *)
+    step: the theorems quantify over it.
+
+    Assumption made by this shape (checked by the harness on every run): a store step changes
+    the database only through Put/Delete of the open batch — [do_write] acts on [cur] alone.
+    A store that edits a byte slice the database handed out (Get returns the database's own
+    storage for map-backed backends) would change [com] outside a commit; the harness compares,
+    at "live" crash points, what the database holds after it discarded its window with the
+    last committed image, and watches every handed-out slice. *)
 From Coq Require Import NArith List.
 Import ListNotations.
 From stdpp Require Import gmap.
